@@ -10,6 +10,7 @@
   the POSIX resolution of a confined name is modelled by contract, not verified (DESIGN §5).
 -/
 import Desync.Proofs.ArchiveProofs
+import Desync.Proofs.ArchiveChildren
 
 namespace Desync.C18
 open Desync
@@ -58,6 +59,28 @@ theorem confined_not_absolute (p : Bytes) (h : Confined p) : p.head? ≠ some sl
         cases cs with
         | nil => simp [List.intercalate, hx]
         | cons d ds => simp [List.intercalate, hx]
+
+/-- **Only the root is nameless**: every node after the first is a proper child of the directory
+    the decoder is in at that moment (its starting directory minus the goodbye elements consumed in
+    this call) — its name is that directory joined with one valid component, and it is none of
+    that directory's ancestors-or-self.  So no later node can replace the directory being unpacked
+    (the defect fixed by 866e492). -/
+theorem later_nodes_are_children (a : ArchDec) (n : Node) (a' : ArchDec)
+    (h : a.next = .ok (some n, a')) (h0 : 0 < a.nodes) (hd : Confined a.dir) :
+    ∃ k c, validName c = true ∧ n.name = joinPath (dirUp k a.dir) c ∧
+      a'.dir = (match (generalizing := false) n with | .dir .. => n.name | _ => dirUp k a.dir) ∧
+      (∀ j, n.name ≠ dirUp j (dirUp k a.dir)) :=
+  next_child_strict a n a' h h0 hd
+
+/-- nothing follows a root that is not a directory -/
+theorem nothing_after_nondir_root (a : ArchDec) (o : Option Node) (a' : ArchDec)
+    (h0 : 0 < a.nodes) (hr : a.rootNotDir = true) (h : a.next = .ok (o, a')) : o = none :=
+  next_none_of_rootNotDir a o a' h h0 hr
+
+/-- for every byte stream: no node but the first is handed to the writer under the name "." -/
+theorem only_first_is_root (b : Bytes) (nodes : List Node) (h : untar b = .ok nodes) :
+    ∀ n ∈ nodes.tail, n.name ≠ [dot] :=
+  untar_tail_ne_dot b nodes h
 
 /-! non-vacuity: "..", "a/b" and "" are not valid names; "ok" is -/
 example : validName [dot, dot] = false ∧ validName [97, slash, 98] = false ∧ validName [] = false ∧
